@@ -16,7 +16,7 @@ D5 cadence skeleton: housekeeping visits every link of the whole slice; within o
    no return precedes the loop; the timer arm calls handle_housekeeping.
 """
 from ..absint import AbsInt, Entry, Num
-from ..ctx import CONN, every_iteration_reaches, full_slice_element, is_call, is_field, loop_of_element, sname
+from ..ctx import CONN, every_iteration_reaches, full_slice_element, is_call, is_field, loop_of_element, sname, some_of
 from ..expr import show, strip_old, walk
 from ..pathcond import PathA, calls_to, field_stores
 from . import C07, C08, C15
@@ -207,8 +207,8 @@ def d3_sample_filter(ctx):
         ok = len(rp) >= 1
         for (bb, t) in rp:
             pc = pa.pc_block(bb)
-            at = [a for a in pa.atoms_of(pc) if is_call(a, name_contains="Option::<T>::is_some") and is_call(strip_old(a[2][0]), stable=HKR)]
-            ok = ok and len(at) == 1 and pa.entails(pc, pa.atom(at[0]))
+            at = some_of(pa, lambda x: is_call(x, stable=HKR))
+            ok = ok and len(at) == 1 and pa.entails(pc, at[0][1])
         ctx.chk.ob("D3", "the shell counts an answered probe only when the handler took a sample", ok, "", key="D3:shell-needs-sample")
 
 
